@@ -376,6 +376,9 @@ Definition nums (l : list event) : list sumv :=
 Definition items (l : list event) : list item :=
   flat_map (fun e => match item_of (snd e) with Some i => [i] | None => [] end) l.
 Definition has_num (l : list event) : bool := match nums l with [] => false | _ => true end.
+Definition present (v : mval) : bool := match v with MAbs => false | _ => true end.
+(* the events that have the field *)
+Definition pres (l : list event) : list event := filter (fun e => present (snd e)) l.
 Definition nnorm (o : option numstats) : numstats := match o with Some x => x | None => num_zero end.
 Definition view (o : option segstats) : segstats := match o with Some s => s | None => new_for_str end.
 
@@ -384,6 +387,7 @@ Definition fits (l : list event) : Prop := abs_total (nums l) < two63.
 
 (* [exactv wt l s]: every part of the record s equals its mathematical definition over the events l *)
 Record exactv (wt : bool) (l : list event) (s : segstats) : Prop := mkExact {
+  ex_isn  : isnum s = has_num l;                           (* IsNumeric iff some event has a numeric value *)
   ex_cnt  : cnt s = Z.of_nat (length (items l));          (* count(f) = number of events that have f *)
   ex_mn   : is_best true (vals l) (mn s);
   ex_mx   : is_best false (vals l) (mx s);
@@ -391,22 +395,20 @@ Record exactv (wt : bool) (l : list event) (s : segstats) : Prop := mkExact {
   ex_sum  : sum_ok (nums l) (nsum (nnorm (num s)));
   ex_set  : sset s = items l;
   ex_list : slist s = items l;
-  ex_ts   : if wt then ts_ok l (tst s) else tst s = None
+  ex_ts   : if wt then ts_ok (pres l) (tst s) else tst s = None   (* over the events that have f *)
 }.
 
 (* equality of everything exactv looks at *)
 Definition sameF (s s' : segstats) : Prop :=
+  isnum s = isnum s' /\
   cnt s = cnt s' /\ mn s = mn s' /\ mx s = mx s' /\ nnorm (num s) = nnorm (num s') /\
   sset s = sset s' /\ slist s = slist s' /\ tst s = tst s'.
 
 Lemma exactv_sameF : forall wt l s s', sameF s s' -> exactv wt l s -> exactv wt l s'.
 Proof.
-  intros wt l s s' [H1 [H2 [H3 [H4 [H5 [H6 H7]]]]]] [A B C D E F G H].
-  constructor; rewrite <- ?H1, <- ?H2, <- ?H3, <- ?H4, <- ?H5, <- ?H6, <- ?H7; auto.
+  intros wt l s s' [H0 [H1 [H2 [H3 [H4 [H5 [H6 H7]]]]]]] [I A B C D E F G H].
+  constructor; rewrite <- ?H0, <- ?H1, <- ?H2, <- ?H3, <- ?H4, <- ?H5, <- ?H6, <- ?H7; auto.
 Qed.
-
-Lemma sameF_refl : forall s, sameF s s.
-Proof. intros; repeat split. Qed.
 
 Lemma vals_app : forall a b, vals (a ++ b) = vals a ++ vals b.
 Proof. intros; apply map_app. Qed.
@@ -414,6 +416,8 @@ Lemma nums_app : forall a b, nums (a ++ b) = nums a ++ nums b.
 Proof. intros; apply flat_map_app. Qed.
 Lemma items_app : forall a b, items (a ++ b) = items a ++ items b.
 Proof. intros; apply flat_map_app. Qed.
+Lemma pres_app : forall a b, pres (a ++ b) = pres a ++ pres b.
+Proof. intros; apply filter_app. Qed.
 Lemma has_num_app : forall a b, has_num (a ++ b) = has_num a || has_num b.
 Proof. intros; unfold has_num; rewrite nums_app. destruct (nums a), (nums b); auto. Qed.
 
@@ -433,7 +437,7 @@ Qed.
 Lemma nonum_zero : forall wt l s, exactv wt l s -> has_num l = false -> nnorm (num s) = num_zero.
 Proof.
   intros wt l s E Hn. unfold has_num in Hn. destruct (nums l) eqn:Hl; [|discriminate].
-  destruct E as [_ _ _ D [S1 [S2 _]] _ _ _]. rewrite Hl in *. simpl in *.
+  destruct E as [_ _ _ _ D [S1 [S2 _]] _ _ _]. rewrite Hl in *. simpl in *.
   destruct (nnorm (num s)) as [c sm]; simpl in *. unfold num_zero. f_equal; [lia|].
   destruct sm; simpl in *; try discriminate. f_equal. unfold FS in S1. lia.
 Qed.
@@ -443,25 +447,29 @@ Definition with_tst (s : segstats) (x : option tstats) : segstats :=
   mkS (isnum s) (cnt s) (mn s) (mx s) (num s) (sset s) (slist s) x.
 
 Lemma add_num_exact : forall wt l s ts' t v n it,
-  exactv wt l s -> isnum s = has_num l ->
-  num_of v = Some n -> item_of v = Some it ->
-  (if wt then ts_ok (l ++ [(t, v)]) ts' else ts' = None) ->
+  exactv wt l s ->
+  num_of v = Some n -> item_of v = Some it -> present v = true ->
+  (if wt then ts_ok (pres l ++ [(t, v)]) ts' else ts' = None) ->
   abs_total (nums l ++ [n]) < two63 ->
   exactv wt (l ++ [(t, v)]) (add_num (Some (with_tst s ts')) v n).
 Proof.
-  intros wt l s ts' t v n it E Hi Hn Hit Hts Hf.
+  intros wt l s ts' t v n it E Hn Hit Hp Hts Hf.
   assert (Hz := nonum_zero wt l s E).
-  destruct E as [A B C D S F G H].
+  destruct E as [Hi A B C D S F G H].
   assert (Hnum : nums (l ++ [(t, v)]) = nums l ++ [n]).
   { rewrite nums_app. simpl. rewrite Hn. reflexivity. }
   assert (Hitm : items (l ++ [(t, v)]) = items l ++ [it]).
   { rewrite items_app. simpl. rewrite Hit. reflexivity. }
   assert (Hval : vals (l ++ [(t, v)]) = vals l ++ [val_of v]).
   { rewrite vals_app. reflexivity. }
+  assert (Hpr : pres (l ++ [(t, v)]) = pres l ++ [(t, v)]).
+  { rewrite pres_app. unfold pres at 2. simpl. rewrite Hp. reflexivity. }
   assert (Hnn : nnorm (if isnum s then num s else Some num_zero) = nnorm (num s)).
   { destruct (isnum s) eqn:Ei; auto. simpl. symmetry. apply Hz. congruence. }
   unfold add_num, with_tst; simpl.
-  constructor; simpl; rewrite ?Hnum, ?Hitm, ?Hval, ?app_length; simpl.
+  constructor; simpl; rewrite ?Hnum, ?Hitm, ?Hval, ?Hpr, ?app_length; simpl.
+  - rewrite has_num_app. unfold has_num at 2. simpl. rewrite Hn. simpl.
+    destruct (isnum s); simpl; rewrite orb_true_r; reflexivity.
   - destruct (isnum s); simpl; rewrite A; lia.
   - destruct (isnum s); simpl; apply is_best_snoc; auto.
   - destruct (isnum s); simpl; apply is_best_snoc; auto.
@@ -480,78 +488,69 @@ Proof.
 Qed.
 
 Lemma add_some_exact : forall wt l s e,
-  exactv wt l s -> isnum s = has_num l -> fits (l ++ [e]) ->
-  exactv wt (l ++ [e]) (view (add wt (Some s) e)) /\
-  isnum (view (add wt (Some s) e)) = has_num (l ++ [e]).
+  exactv wt l s -> fits (l ++ [e]) ->
+  exactv wt (l ++ [e]) (view (add wt (Some s) e)).
 Proof.
-  intros wt l s [t v] E Hi Hf.
-  assert (Hts : if wt then ts_ok (l ++ [(t, v)]) (ts_step (tst s) t v) else tst s = None).
-  { destruct E as [_ _ _ _ _ _ _ H]. destruct wt; auto. apply ts_ok_step; auto. }
-  assert (Hadd : forall n it, num_of v = Some n -> item_of v = Some it ->
+  intros wt l s [t v] E Hf.
+  assert (Hts : present v = true ->
+     if wt then ts_ok (pres l ++ [(t, v)]) (ts_step (tst s) t v) else tst s = None).
+  { intros _. destruct E as [_ _ _ _ _ _ _ _ H]. destruct wt; auto. apply ts_ok_step; auto. }
+  assert (Hadd : forall n it, num_of v = Some n -> item_of v = Some it -> present v = true ->
      exactv wt (l ++ [(t, v)]) (add_num (if wt then Some (with_tst s (ts_step (tst s) t v)) else Some s) v n)).
-  { intros n it Hn Hit. unfold fits in Hf. rewrite nums_app in Hf. simpl in Hf. rewrite Hn in Hf. simpl in Hf.
+  { intros n it Hn Hit Hp. unfold fits in Hf. rewrite nums_app in Hf. simpl in Hf. rewrite Hn in Hf. simpl in Hf.
     destruct wt.
     - eapply add_num_exact; eauto.
     - replace s with (with_tst s (tst s)) at 1 by (destruct s; reflexivity).
       eapply add_num_exact; eauto. }
-  rewrite has_num_app.
   destruct v as [|z|q|sx q|sx]; unfold add; simpl.
-  - (* absent *)
-    destruct E as [A B C D S F G H]. split.
-    + destruct wt; simpl; constructor; simpl;
-        rewrite ?vals_app, ?nums_app, ?items_app; simpl; rewrite ?app_nil_r; auto;
-        try (rewrite <- (rm_none_r true (mn s)); apply is_best_snoc; auto);
-        try (rewrite <- (rm_none_r false (mx s)); apply is_best_snoc; auto).
-    + unfold has_num at 2; simpl. rewrite orb_false_r. destruct wt; simpl; auto.
-  - split; [eapply Hadd; reflexivity|].
-    unfold add_num; destruct wt; simpl; destruct (isnum s); simpl; rewrite orb_true_r; auto.
-  - split; [eapply Hadd; reflexivity|].
-    unfold add_num; destruct wt; simpl; destruct (isnum s); simpl; rewrite orb_true_r; auto.
-  - split; [eapply Hadd; reflexivity|].
-    unfold add_num; destruct wt; simpl; destruct (isnum s); simpl; rewrite orb_true_r; auto.
+  - (* absent: nothing changes *)
+    destruct E as [Hi A B C D S F G H].
+    constructor; rewrite ?has_num_app, ?vals_app, ?nums_app, ?items_app, ?pres_app; simpl;
+      rewrite ?app_nil_r; auto.
+    + unfold has_num at 2; simpl. rewrite orb_false_r. auto.
+    + rewrite <- (rm_none_r true (mn s)); apply is_best_snoc; auto.
+    + rewrite <- (rm_none_r false (mx s)); apply is_best_snoc; auto.
+  - eapply Hadd; reflexivity.
+  - eapply Hadd; reflexivity.
+  - eapply Hadd; reflexivity.
   - (* other string *)
-    destruct E as [A B C D S F G H]. split.
-    + destruct wt; simpl; constructor; simpl;
-        rewrite ?vals_app, ?nums_app, ?items_app, ?app_length; simpl; rewrite ?app_nil_r;
-        try (apply is_best_snoc; assumption);
-        try (rewrite A; lia); try (rewrite D; lia); try congruence; auto.
-    + unfold has_num at 2; simpl. rewrite orb_false_r. destruct wt; simpl; auto.
+    specialize (Hts eq_refl). destruct E as [Hi A B C D S F G H].
+    destruct wt; simpl; constructor; simpl;
+      rewrite ?has_num_app, ?vals_app, ?nums_app, ?items_app, ?pres_app, ?app_length; simpl; rewrite ?app_nil_r;
+      try (apply is_best_snoc; assumption);
+      try (rewrite A; lia); try (rewrite D; lia); try congruence; auto;
+      try (unfold has_num at 2; simpl; rewrite orb_false_r; auto).
 Qed.
 
 (* an absent map entry behaves like the empty record *)
 Lemma add_none_same : forall wt e,
-  sameF (view (add wt None e)) (view (add wt (Some new_for_str) e)) /\
-  isnum (view (add wt None e)) = isnum (view (add wt (Some new_for_str) e)).
+  sameF (view (add wt None e)) (view (add wt (Some new_for_str) e)).
 Proof.
   intros wt [t v]. destruct wt, v; simpl; repeat split; reflexivity.
 Qed.
 
 Lemma add_exact : forall wt l o e,
-  exactv wt l (view o) -> isnum (view o) = has_num l -> fits (l ++ [e]) ->
-  exactv wt (l ++ [e]) (view (add wt o e)) /\ isnum (view (add wt o e)) = has_num (l ++ [e]).
+  exactv wt l (view o) -> fits (l ++ [e]) ->
+  exactv wt (l ++ [e]) (view (add wt o e)).
 Proof.
-  intros wt l o e E Hi Hf. destruct o as [s|]; [apply add_some_exact; auto|].
-  simpl in *. destruct (add_some_exact wt l new_for_str e E Hi Hf) as [E' Hi'].
-  destruct (add_none_same wt e) as [Hs Hn]. split.
-  - eapply exactv_sameF; [|exact E']. destruct Hs as [? [? [? [? [? [? ?]]]]]]. repeat split; congruence.
-  - congruence.
+  intros wt l o e E Hf. destruct o as [s|]; [apply add_some_exact; auto|].
+  simpl in *. assert (E' := add_some_exact wt l new_for_str e E Hf).
+  assert (Hs := add_none_same wt e).
+  eapply exactv_sameF; [|exact E']. destruct Hs as [? [? [? [? [? [? [? ?]]]]]]]. repeat split; congruence.
 Qed.
 
 Lemma stats_from_exact : forall wt l2 l1 o,
-  exactv wt l1 (view o) -> isnum (view o) = has_num l1 -> fits (l1 ++ l2) ->
-  exactv wt (l1 ++ l2) (view (fold_left (add wt) l2 o)) /\
-  isnum (view (fold_left (add wt) l2 o)) = has_num (l1 ++ l2).
+  exactv wt l1 (view o) -> fits (l1 ++ l2) ->
+  exactv wt (l1 ++ l2) (view (fold_left (add wt) l2 o)).
 Proof.
-  induction l2 as [|e r IH]; intros l1 o E Hi Hf; simpl.
+  induction l2 as [|e r IH]; intros l1 o E Hf; simpl.
   - rewrite app_nil_r. auto.
   - replace (l1 ++ e :: r) with ((l1 ++ [e]) ++ r) in * by (rewrite <- app_assoc; reflexivity).
-    destruct (add_exact wt l1 o e E Hi) as [E' Hi']; [apply (fits_app _ r); auto|].
-    apply IH; auto.
+    apply IH; auto. apply add_exact; auto. apply (fits_app _ r); auto.
 Qed.
 
 (* each measure of the record built from a block of events equals its mathematical definition *)
-Lemma stats_exact : forall wt l, fits l ->
-  exactv wt l (view (stats wt l)) /\ isnum (view (stats wt l)) = has_num l.
+Lemma stats_exact : forall wt l, fits l -> exactv wt l (view (stats wt l)).
 Proof.
   intros. apply (stats_from_exact wt l [] None); auto. apply exactv_nil.
 Qed.
@@ -561,13 +560,14 @@ Lemma merge_exact : forall wt l1 l2 a b,
   exactv wt l1 a -> exactv wt l2 b -> fits (l1 ++ l2) ->
   exactv wt (l1 ++ l2) (merge a b).
 Proof.
-  intros wt l1 l2 a b [A1 A2 A3 A4 A5 A6 A7 A8] [B1 B2 B3 B4 B5 B6 B7 B8] Hf.
+  intros wt l1 l2 a b [A0 A1 A2 A3 A4 A5 A6 A7 A8] [B0 B1 B2 B3 B4 B5 B6 B7 B8] Hf.
   unfold fits in Hf. rewrite nums_app in Hf.
   assert (Hmn : better true (mn b) (mx b)).
   { eapply best_min_vs_member; eauto. destruct B3 as [H _]; auto. }
   assert (Hmx : better false (mx b) (mn b)).
   { eapply best_min_vs_member; eauto. destruct B2 as [H _]; auto. }
-  constructor; unfold merge; simpl; rewrite ?vals_app, ?nums_app, ?items_app, ?app_length.
+  constructor; unfold merge; simpl; rewrite ?has_num_app, ?vals_app, ?nums_app, ?items_app, ?pres_app, ?app_length.
+  - congruence.
   - lia.
   - rewrite rm_assoc, (rm_absorb true (mn b) (mx b)) by auto. apply is_best_app; auto.
   - rewrite rm_assoc, (rm_comm false (mn b) (mx b)), (rm_absorb false (mx b) (mn b)) by auto.
@@ -587,7 +587,7 @@ Qed.
 
 Lemma merge_zero_r : forall x, sameF (merge x new_for_str) x.
 Proof.
-  intros x. unfold merge, sameF; simpl. rewrite !rm_none_r, !app_nil_r.
+  intros x. unfold merge, sameF; simpl. rewrite !rm_none_r, !app_nil_r, orb_false_r.
   repeat split; try lia.
   - destruct (num x); reflexivity.
   - destruct (tst x); reflexivity.
@@ -595,7 +595,7 @@ Qed.
 
 Lemma merge_zero_l : forall wt l y, exactv wt l y -> sameF (merge new_for_str y) y.
 Proof.
-  intros wt l y [B1 B2 B3 B4 B5 B6 B7 B8]. unfold merge, sameF; simpl.
+  intros wt l y [B0 B1 B2 B3 B4 B5 B6 B7 B8]. unfold merge, sameF; simpl.
   assert (Hmn : better true (mn y) (mx y)).
   { eapply best_min_vs_member; eauto. destruct B3 as [H _]; auto. }
   assert (Hmx : better false (mx y) (mn y)).
@@ -648,6 +648,7 @@ Qed.
 (* ---- uniqueness up to the order of the events ---- *)
 (* equality of records up to the order in which values()/list() were collected *)
 Definition req (s s' : segstats) : Prop :=
+  isnum s = isnum s' /\
   cnt s = cnt s' /\ mn s = mn s' /\ mx s = mx s' /\ nnorm (num s) = nnorm (num s') /\
   (forall x, In x (sset s) <-> In x (sset s')) /\ Permutation (slist s) (slist s') /\ tst s = tst s'.
 
@@ -660,15 +661,42 @@ Proof.
   - eapply Permutation_trans; eauto.
 Qed.
 
+Lemma perm_filter : forall (A : Type) (f : A -> bool) l l',
+  Permutation l l' -> Permutation (filter f l) (filter f l').
+Proof.
+  induction 1; simpl; auto.
+  - destruct (f x); auto.
+  - destruct (f x), (f y); auto. apply perm_swap.
+  - eapply Permutation_trans; eauto.
+Qed.
+
+Lemma nodup_map_filter : forall (l : list event) f, NoDup (map fst l) -> NoDup (map fst (filter f l)).
+Proof.
+  induction l as [|e r IH]; simpl; intros f Hn; auto. inversion Hn; subst.
+  destruct (f e); simpl; auto. constructor; auto.
+  intros Hin. apply H1. apply in_map_iff in Hin. destruct Hin as [x [Hx Hin]].
+  apply filter_In in Hin. apply in_map_iff. exists x; tauto.
+Qed.
+
+Lemma has_num_perm : forall l l', Permutation l l' -> has_num l = has_num l'.
+Proof.
+  intros l l' P. unfold has_num.
+  assert (Pn : Permutation (nums l) (nums l')) by (apply perm_flat_map; auto).
+  destruct (nums l) eqn:E1, (nums l') eqn:E2; auto.
+  - apply Permutation_nil in Pn. discriminate.
+  - apply Permutation_sym, Permutation_nil in Pn. discriminate.
+Qed.
+
 Lemma exactv_perm_unique : forall wt l l' s s',
   Permutation l l' -> (wt = true -> NoDup (map fst l)) ->
   exactv wt l s -> exactv wt l' s' -> req s s'.
 Proof.
-  intros wt l l' s s' P Hnd [A1 A2 A3 A4 A5 A6 A7 A8] [B1 B2 B3 B4 B5 B6 B7 B8].
+  intros wt l l' s s' P Hnd [A0 A1 A2 A3 A4 A5 A6 A7 A8] [B0 B1 B2 B3 B4 B5 B6 B7 B8].
   assert (Pi : Permutation (items l) (items l')) by (apply perm_flat_map; auto).
   assert (Pn : Permutation (nums l) (nums l')) by (apply perm_flat_map; auto).
   assert (Pv : Permutation (vals l) (vals l')) by (apply Permutation_map; auto).
   repeat split.
+  - rewrite A0, B0. apply has_num_perm; auto.
   - rewrite A1, B1, (Permutation_length Pi). auto.
   - eapply is_best_unique; [eapply is_best_perm; eauto | auto].
   - eapply is_best_unique; [eapply is_best_perm; eauto | auto].
@@ -681,59 +709,10 @@ Proof.
   - rewrite A6, B6. intros. eapply Permutation_in; [apply Permutation_sym|]; eauto.
   - rewrite A7, B7. auto.
   - destruct wt.
-    + eapply ts_ok_unique; eauto.
+    + eapply (ts_ok_unique (pres l) (pres l')); eauto.
+      * apply perm_filter; auto.
+      * apply nodup_map_filter; auto.
     + congruence.
-Qed.
-
-(* ---- which IsNumeric flag the merged record carries ---- *)
-Definition present (v : mval) : bool := match v with MAbs => false | _ => true end.
-Definition touched (wt : bool) (b : list event) : bool := existsb (fun e => wt || present (snd e)) b.
-(* has_num of the first block that creates the map entry *)
-Fixpoint lead_num (wt : bool) (bs : list (list event)) : bool :=
-  match bs with
-  | [] => false
-  | b :: r => if touched wt b then has_num b else lead_num wt r
-  end.
-
-Lemma add_none_iff : forall wt o e,
-  add wt o e = None <-> o = None /\ wt || present (snd e) = false.
-Proof.
-  intros wt o [t v]. destruct wt, o, v; simpl; split; intros H; try discriminate; auto;
-  destruct H; discriminate.
-Qed.
-
-Lemma stats_none_iff : forall wt l o,
-  fold_left (add wt) l o = None <-> o = None /\ touched wt l = false.
-Proof.
-  induction l as [|e r IH]; intros o.
-  - simpl. tauto.
-  - change (touched wt (e :: r)) with ((wt || present (snd e)) || touched wt r).
-    change (fold_left (add wt) (e :: r) o) with (fold_left (add wt) r (add wt o e)).
-    rewrite IH, add_none_iff, (orb_false_iff (wt || present (snd e))). tauto.
-Qed.
-
-Lemma mergeo_isnum_some : forall s x, isnum (view (mergeo (Some s) x)) = isnum s.
-Proof. intros s [y|]; reflexivity. Qed.
-
-Lemma blocks_isnum_some : forall wt bs s,
-  isnum (view (fold_left (fun a b => mergeo a (stats wt b)) bs (Some s))) = isnum s.
-Proof.
-  induction bs as [|b r IH]; intros s; simpl; auto.
-  destruct (stats wt b) as [y|]; simpl; rewrite IH; auto.
-Qed.
-
-Lemma blocks_isnum : forall wt bs, (forall b, In b bs -> fits b) ->
-  isnum (view (merge_blocks wt bs)) = lead_num wt bs.
-Proof.
-  unfold merge_blocks. induction bs as [|b r IH]; intros Hf; simpl; auto.
-  destruct (touched wt b) eqn:Et.
-  - destruct (stats wt b) as [s|] eqn:Es.
-    + rewrite blocks_isnum_some.
-      destruct (stats_exact wt b) as [_ Hi]; [apply Hf; simpl; auto|]. rewrite Es in Hi. auto.
-    + unfold stats in Es. apply stats_none_iff in Es. destruct Es. congruence.
-  - assert (stats wt b = None) as ->.
-    { unfold stats. apply stats_none_iff. auto. }
-    apply IH. intros; apply Hf; simpl; auto.
 Qed.
 
 (* ================= results ================= *)
@@ -746,10 +725,9 @@ Definition res_eq (r r' : result) : Prop :=
 Lemma finalize_view : forall o, finalize o = finalize (Some (view o)).
 Proof. destruct o; reflexivity. Qed.
 
-Lemma finalize_req : forall s s', req s s' -> isnum s = isnum s' ->
-  res_eq (finalize (Some s)) (finalize (Some s')).
+Lemma finalize_req : forall s s', req s s' -> res_eq (finalize (Some s)) (finalize (Some s')).
 Proof.
-  intros s s' [H1 [H2 [H3 [H4 [H5 [H6 H7]]]]]] Hi. unfold finalize, res_eq; simpl.
+  intros s s' [Hi [H1 [H2 [H3 [H4 [H5 [H6 H7]]]]]]]. unfold finalize, res_eq; simpl.
   change (match num s with Some x => x | None => num_zero end) with (nnorm (num s)).
   change (match num s' with Some x => x | None => num_zero end) with (nnorm (num s')).
   rewrite H1, H2, H3, H4, H7, Hi. repeat split; auto; apply H5.
@@ -761,35 +739,23 @@ Proof.
   apply perm_flat_map; auto.
 Qed.
 
-Lemma has_num_perm : forall l l', Permutation l l' -> has_num l = has_num l'.
-Proof.
-  intros l l' P. unfold has_num.
-  assert (Pn : Permutation (nums l) (nums l')) by (apply perm_flat_map; auto).
-  destruct (nums l) eqn:E1, (nums l') eqn:E2; auto.
-  - apply Permutation_nil in Pn. discriminate.
-  - apply Permutation_sym, Permutation_nil in Pn. discriminate.
-Qed.
-
 (* any partition of the matched events into blocks / segments, merged in any order, gives the
    same answer, and that answer is the one of a single pass over the events *)
 Lemma segmentation_irrelevant_guarded : forall wt l bs bs',
   Permutation (concat bs) l -> Permutation (concat bs') l ->
   fits l -> (wt = true -> NoDup (map fst l)) ->
-  lead_num wt bs = has_num l -> lead_num wt bs' = has_num l ->
   res_eq (finalize (merge_blocks wt bs)) (finalize (merge_blocks wt bs')) /\
   res_eq (finalize (merge_blocks wt bs)) (finalize (stats wt l)).
 Proof.
-  intros wt l bs bs' P P' Hf Hnd Hl Hl'.
+  intros wt l bs bs' P P' Hf Hnd.
   assert (F1 : fits (concat bs)) by (eapply fits_perm; [apply Permutation_sym|]; eauto).
   assert (F2 : fits (concat bs')) by (eapply fits_perm; [apply Permutation_sym|]; eauto).
   assert (E1 := blocks_exact wt bs F1). assert (E2 := blocks_exact wt bs' F2).
-  destruct (stats_exact wt l Hf) as [E3 I3].
-  assert (I1 := blocks_isnum wt bs (fun b => fits_concat_in bs b F1)).
-  assert (I2 := blocks_isnum wt bs' (fun b => fits_concat_in bs' b F2)).
+  assert (E3 := stats_exact wt l Hf).
   assert (N1 : wt = true -> NoDup (map fst (concat bs))).
   { intros Hw. eapply Permutation_NoDup; [apply Permutation_map, Permutation_sym; eauto | auto]. }
   rewrite (finalize_view (merge_blocks wt bs)), (finalize_view (merge_blocks wt bs')), (finalize_view (stats wt l)).
-  split; apply finalize_req; try congruence.
+  split; apply finalize_req.
   - eapply exactv_perm_unique; [| exact N1 | exact E1 | exact E2].
     eapply Permutation_trans; [eauto | apply Permutation_sym; auto].
   - eapply exactv_perm_unique; [| exact N1 | exact E1 | exact E3]. auto.
@@ -803,7 +769,7 @@ Proof.
 Qed.
 
 Lemma finalize_exact : forall wt l s,
-  exactv wt l s -> isnum s = has_num l ->
+  exactv wt l s ->
   let r := finalize (Some s) in
   r_count r = Z.of_nat (length (items l)) /\
   (if has_num l then sum_ok (nums l) (r_sum r) else r_sum r = SInt 0) /\
@@ -812,21 +778,18 @@ Lemma finalize_exact : forall wt l s,
    else r_avg r = None) /\
   is_best true (vals l) (r_min r) /\ is_best false (vals l) (r_max r) /\
   r_values r = items l /\ r_list r = items l /\
-  (if wt then ts_ok l (tst s) else tst s = None).
+  (if wt then ts_ok (pres l) (tst s) else tst s = None).
 Proof.
-  intros wt l s [A B C D S F G H] Hi. unfold finalize; simpl.
+  intros wt l s [Hi A B C D S F G H]. unfold finalize; simpl.
   change (match num s with Some x => x | None => num_zero end) with (nnorm (num s)).
-  rewrite Hi. repeat split; auto.
+  rewrite Hi.
+  refine (conj A (conj _ (conj _ (conj B (conj C (conj F (conj G H))))))).
   - destruct (has_num l); auto.
   - destruct (has_num l) eqn:Eh; simpl.
     + assert (0 <? ncnt (nnorm (num s)) = true) as ->.
       { apply Z.ltb_lt. rewrite D. unfold has_num in Eh. destruct (nums l); [discriminate|simpl; lia]. }
       eexists; split; [reflexivity|]. rewrite D. rewrite (sum_q_ok _ _ S). reflexivity.
     + reflexivity.
-  - apply B.
-  - apply B.
-  - apply C.
-  - apply C.
 Qed.
 
 (* avg is Sum / NumericCount of the same record, for every record *)
@@ -859,10 +822,9 @@ Qed.
 Lemma merge_assoc_reachable : forall wt l1 l2 l3 a b c,
   exactv wt l1 a -> exactv wt l2 b -> exactv wt l3 c -> fits (l1 ++ l2 ++ l3) ->
   (wt = true -> NoDup (map fst (l1 ++ l2 ++ l3))) ->
-  req (merge (merge a b) c) (merge a (merge b c)) /\
-  isnum (merge (merge a b) c) = isnum (merge a (merge b c)).
+  req (merge (merge a b) c) (merge a (merge b c)).
 Proof.
-  intros wt l1 l2 l3 a b c Ea Eb Ec Hf Hnd. split; [|reflexivity].
+  intros wt l1 l2 l3 a b c Ea Eb Ec Hf Hnd.
   assert (F23 : fits (l2 ++ l3)) by (apply (fits_app l1); auto).
   assert (F12 : fits (l1 ++ l2)) by (rewrite app_assoc in Hf; apply (fits_app _ l3); auto).
   eapply exactv_perm_unique; [apply Permutation_refl | exact Hnd | |].
@@ -872,18 +834,11 @@ Qed.
 
 Lemma fold_add_app_guarded : forall wt l1 l2,
   fits (l1 ++ l2) -> (wt = true -> NoDup (map fst (l1 ++ l2))) ->
-  req (view (stats wt (l1 ++ l2))) (view (mergeo (stats wt l1) (stats wt l2))) /\
-  isnum (view (stats wt (l1 ++ l2))) = has_num (l1 ++ l2) /\
-  isnum (view (mergeo (stats wt l1) (stats wt l2))) = lead_num wt [l1; l2].
+  req (view (stats wt (l1 ++ l2))) (view (mergeo (stats wt l1) (stats wt l2))).
 Proof.
   intros wt l1 l2 Hf Hnd. destruct (fits_app _ _ Hf) as [F1 F2].
-  destruct (stats_exact wt (l1 ++ l2) Hf) as [E I]. split; [|split; auto].
-  - eapply exactv_perm_unique; [apply Permutation_refl | exact Hnd | exact E |].
-    apply mergeo_exact; auto; apply stats_exact; auto.
-  - assert (Hb : isnum (view (merge_blocks wt [l1; l2])) = lead_num wt [l1; l2]).
-    { apply blocks_isnum. intros b [<- | [<- | []]]; auto. }
-    unfold merge_blocks in Hb. simpl fold_left in Hb.
-    change (mergeo None (stats wt l1)) with (stats wt l1) in Hb. exact Hb.
+  eapply exactv_perm_unique; [apply Permutation_refl | exact Hnd | apply stats_exact; auto |].
+  apply mergeo_exact; auto; apply stats_exact; auto.
 Qed.
 
 (* ================= group-by ================= *)
@@ -1068,33 +1023,15 @@ Lemma sum_merge_assoc_refuted :
   exists a b c, sum_merge (sum_merge a b) c <> sum_merge a (sum_merge b c).
 Proof. exists (SInt big), (SInt big), (SFlt 0). vm_compute. congruence. Qed.
 
-(* IsNumeric is taken from the first merged record: a block that holds only non-numeric strings,
-   merged first, turns sum and avg of the whole into 0 *)
 Definition sx : str := [120%N].
-Lemma segmentation_isnum_refuted :
-  exists bs bs', Permutation bs bs' /\ fits (concat bs) /\
-    lead_num false bs <> has_num (concat bs) /\
-    r_sum (finalize (merge_blocks false bs)) = SInt 0 /\
-    r_avg (finalize (merge_blocks false bs)) = None /\
-    r_sum (finalize (merge_blocks false bs')) = SInt 12 /\
-    r_avg (finalize (merge_blocks false bs')) = Some (Qdiv (inject_Z 12) (inject_Z 2)).
-Proof.
-  exists [[(2, MStr sx)]; [(0, MInt 5); (1, MInt 7)]], [[(0, MInt 5); (1, MInt 7)]; [(2, MStr sx)]].
-  split; [apply perm_swap|].
-  split; [unfold fits; vm_compute; reflexivity|].
-  split; [vm_compute; congruence|].
-  repeat split; vm_compute; reflexivity.
-Qed.
 
-Lemma merge_identity_isnum_refuted :
-  exists y, isnum (merge new_for_str y) <> isnum y.
-Proof. exists new_for_num. vm_compute. congruence. Qed.
-
-(* the guards are satisfiable together with real work (non-vacuity) *)
+(* the guards are satisfiable together with real work (non-vacuity): strings-only block first,
+   an event without the field last *)
 Example guards_satisfiable :
-  let bs := [[(0, MInt 5); (1, MStr sx)]; [(2, MFlt 2560); (3, MAbs)]; [(4, MNumStr [55%N] 7168)]] in
-  fits (concat bs) /\ NoDup (map fst (concat bs)) /\ lead_num true bs = has_num (concat bs) /\
-  r_sum (finalize (merge_blocks true bs)) = SFlt (5 * 1024 + 2560 + 7168).
+  let bs := [[(1, MStr sx)]; [(0, MInt 5); (2, MFlt 2560); (3, MAbs)]; [(4, MNumStr [55%N] 7168); (5, MAbs)]] in
+  fits (concat bs) /\ NoDup (map fst (concat bs)) /\
+  r_sum (finalize (merge_blocks true bs)) = SFlt (5 * 1024 + 2560 + 7168) /\
+  r_latest (finalize (merge_blocks true bs)) = Some (INum 7168).
 Proof.
   simpl.
   split; [unfold fits; vm_compute; reflexivity|].
@@ -1112,12 +1049,56 @@ Proof.
   split; [unfold fits; vm_compute; reflexivity|]. repeat split; vm_compute; reflexivity.
 Qed.
 
+(* ================= the code before the two fixes (documentation) ================= *)
+(* [merge_prefix]: IsNumeric of the receiver was kept.  It agrees with the fixed merge when both
+   sides agree on IsNumeric ... *)
+Lemma prefix_merge_guarded : forall a b, isnum a = isnum b -> merge_prefix a b = merge a b.
+Proof. intros a b H. unfold merge_prefix, merge. rewrite H, orb_diag. reflexivity. Qed.
+
+(* ... and otherwise: a block that holds only non-numeric strings, merged first, turned sum and
+   avg of the whole into 0 (older segment f=5,7; newest segment f="x") *)
+Lemma prefix_segmentation_isnum_refuted :
+  exists bs bs', Permutation bs bs' /\ fits (concat bs) /\
+    r_sum (finalize (merge_blocks_prefix false bs)) = SInt 0 /\
+    r_avg (finalize (merge_blocks_prefix false bs)) = None /\
+    r_sum (finalize (merge_blocks_prefix false bs')) = SInt 12 /\
+    r_sum (finalize (merge_blocks false bs)) = SInt 12 /\
+    r_avg (finalize (merge_blocks false bs)) = Some (Qdiv (inject_Z 12) (inject_Z 2)).
+Proof.
+  exists [[(2, MStr sx)]; [(0, MInt 5); (1, MInt 7)]], [[(0, MInt 5); (1, MInt 7)]; [(2, MStr sx)]].
+  split; [apply perm_swap|].
+  split; [unfold fits; vm_compute; reflexivity|].
+  repeat split; vm_compute; reflexivity.
+Qed.
+
+Lemma prefix_merge_identity_isnum_refuted :
+  exists y, isnum (merge_prefix new_for_str y) <> isnum y.
+Proof. exists new_for_num. vm_compute. congruence. Qed.
+
+(* [add_prefix]: the time functions ran on every matched record.  Same as the fixed add on an
+   event that has the field ... *)
+Lemma prefix_add_guarded : forall wt o e, present (snd e) = true -> add_prefix wt o e = add wt o e.
+Proof. intros wt o [t v] H. destruct v; simpl in *; try discriminate; reflexivity. Qed.
+
+(* ... and otherwise: events f=5, f=7, (no f) in time order gave latest(f) = nothing (printed 0)
+   although the latest event that has f says 7 *)
+Lemma prefix_latest_from_event_without_field_refuted :
+  exists l, NoDup (map fst l) /\
+    r_latest (finalize (stats_prefix true l)) = None /\
+    r_latest (finalize (stats true l)) = Some (INum (7 * 1024)).
+Proof.
+  exists [(0, MInt 5); (1, MInt 7); (2, MAbs)].
+  split; [repeat constructor; simpl; intuition; discriminate|].
+  split; vm_compute; reflexivity.
+Qed.
+
 (* ================= the statement for results ================= *)
 (* for every way of cutting the matched events into blocks: each reported measure equals its
-   mathematical definition over the matched events *)
+   mathematical definition over the matched events; earliest/latest are the values at the least /
+   greatest timestamp among the events that HAVE the field *)
 Lemma result_exact_guarded : forall wt bs,
   let l := concat bs in
-  fits l -> lead_num wt bs = has_num l ->
+  fits l ->
   let r := finalize (merge_blocks wt bs) in
   r_count r = Z.of_nat (length (items l)) /\
   (if has_num l then sum_ok (nums l) (r_sum r) else r_sum r = SInt 0) /\
@@ -1126,20 +1107,24 @@ Lemma result_exact_guarded : forall wt bs,
    else r_avg r = None) /\
   is_best true (vals l) (r_min r) /\ is_best false (vals l) (r_max r) /\
   r_values r = items l /\ r_list r = items l /\
-  (wt = true -> l <> [] ->
+  (wt = true -> pres l <> [] ->
      exists te ve tl vl,
-       In (te, ve) l /\ (forall e, In e l -> te <= fst e) /\ r_earliest r = item_of ve /\
-       In (tl, vl) l /\ (forall e, In e l -> fst e <= tl) /\ r_latest r = item_of vl).
+       In (te, ve) l /\ present ve = true /\
+       (forall e, In e l -> present (snd e) = true -> te <= fst e) /\ r_earliest r = item_of ve /\
+       In (tl, vl) l /\ present vl = true /\
+       (forall e, In e l -> present (snd e) = true -> fst e <= tl) /\ r_latest r = item_of vl).
 Proof.
-  intros wt bs l Hf Hl r. unfold r. rewrite finalize_view.
-  assert (E := blocks_exact wt bs Hf).
-  assert (I := blocks_isnum wt bs (fun b => fits_concat_in bs b Hf)).
-  fold l in E. rewrite Hl in I.
-  destruct (finalize_exact wt l _ E I) as [H1 [H2 [H3 [H4 [H5 [H6 [H7 H8]]]]]]].
+  intros wt bs l Hf r. unfold r. rewrite finalize_view.
+  assert (E := blocks_exact wt bs Hf). fold l in E.
+  destruct (finalize_exact wt l _ E) as [H1 [H2 [H3 [H4 [H5 [H6 [H7 H8]]]]]]].
   refine (conj H1 (conj H2 (conj H3 (conj H4 (conj H5 (conj H6 (conj H7 _))))))).
   intros -> Hne. destruct H8 as [[Hn _] | [x [Hx [L1 [L2 [E1 E2]]]]]]; [congruence|].
   exists (ets x), (eval_ x), (lts x), (lval x). unfold finalize; simpl. rewrite Hx.
+  unfold pres in *. apply filter_In in L1. apply filter_In in E1. simpl in *.
+  destruct L1 as [L1 L1p], E1 as [E1 E1p].
   repeat split; auto.
+  - intros e He Hp. apply E2. apply filter_In. auto.
+  - intros e He Hp. apply L2. apply filter_In. auto.
 Qed.
 
 Lemma minmax_comm_assoc : forall m a b c,
@@ -1150,11 +1135,13 @@ Proof.
   intros. split; [apply rm_comm|]. split; [apply rm_assoc|]. split; [apply rm_none_r | reflexivity].
 Qed.
 
+(* the absent map entry and the empty record are identities (the empty record on the left: for a
+   reachable right operand, because Min/Max are each merged with both Min and Max of the other side) *)
 Lemma merge_identity : forall wt l x,
   mergeo None (Some x) = Some x /\ mergeo (Some x) None = Some x /\
-  sameF (merge x new_for_str) x /\ isnum (merge x new_for_str) = isnum x /\
+  sameF (merge x new_for_str) x /\
   (exactv wt l x -> sameF (merge new_for_str x) x).
 Proof.
   intros. split; [reflexivity|]. split; [reflexivity|]. split; [apply merge_zero_r|].
-  split; [reflexivity|]. intros; eapply merge_zero_l; eauto.
+  intros; eapply merge_zero_l; eauto.
 Qed.
